@@ -28,6 +28,10 @@ CONSTANTS
   NOps,        \* set of operation counts explored
   Buffers,     \* set of result-channel capacities explored (0 = unbuffered)
   QCaps,       \* set of queue capacities explored (>= 1)
+  FifoSend,    \* TRUE: workers blocked in p.out <- are served in the order they blocked (what the Go runtime
+               \* does; needed to replay schedules deterministically).  FALSE: any blocked sender may go next
+               \* (all the language promises; used for the exhaustive check).
+  MaxPanics,   \* at most this many operations panic (and always fewer than there are workers)
   AtomicLast   \* TRUE = repaired
 
 MaxOf(S) == CHOOSE x \in S : \A y \in S : y <= x
@@ -36,11 +40,17 @@ Workers == 1..MaxT
 
 WorkerGates == {"proc.start", "proc.recv", "proc.sent", "proc.token_returned"}
 
-InitState(t, n, b, q) ==
-  [t |-> t, n |-> n, b |-> b, q |-> q,
+\* An operation that panics: the worker's deferred function recovers, sends the error as that operation's
+\* Result, and the worker then leaves like one that found the queue closed (one worker fewer from then on).
+\* If every worker died the submitter would block for ever; such sets are outside what C19 speaks about.
+PanicSets(t, n) == {S \in SUBSET (1..n) : Cardinality(S) <= MaxPanics /\ Cardinality(S) < t}
+
+InitState(t, n, b, q, bad) ==
+  [t |-> t, n |-> n, b |-> b, q |-> q, bad |-> bad,
    inq       |-> <<>>,         \* channel p.in (the queue)
    inClosed  |-> FALSE,
    out       |-> <<>>,         \* channel p.out
+   sendq     |-> <<>>,         \* FifoSend: workers blocked (or about to send) on p.out, oldest first
    closes    |-> 0,            \* number of close(p.out) executed
    panicked  |-> FALSE,        \* close of closed channel / send on closed channel
    tokens    |-> t,            \* len(p.work)
@@ -76,7 +86,10 @@ CloseOut(st) ==
 ReleaseWorker(st, w) ==
   LET pc == st.wpc[w] IN
   CASE pc = "proc.start" -> [st EXCEPT !.wpc[w] = "recvwait"]           \* for input := range p.in
-    [] pc = "proc.recv"  -> [st EXCEPT !.wpc[w] = "sendwait"]           \* Operation(); p.out <- Result
+    [] pc = "proc.recv"  -> [st EXCEPT !.wpc[w] = IF st.cur[w] \in st.bad THEN "psendwait" ELSE "sendwait",
+                                        !.sendq = IF FifoSend THEN Append(@, w) ELSE @]
+                                                                       \* Operation(); p.out <- Result (from the deferred
+                                                                       \* function when the operation panicked)
     [] pc = "proc.sent"  -> [st EXCEPT !.wpc[w] = "recvwait"]           \* stop not closed: next input
     [] pc = "proc.token_returned" ->
          \* the test that decides who closes p.out, then wg.Done()
@@ -96,6 +109,13 @@ Released(st, p) ==
 (***************************************************************************)
 (* Internal steps                                                          *)
 (***************************************************************************)
+\* after its Result has gone: the loop goes on, or (panicked operation) the deferred function returns the token
+AfterSend(u0, w) ==
+  LET u == [u0 EXCEPT !.sendq = IF FifoSend THEN Tail(@) ELSE @] IN
+  IF u.wpc[w] = "psendwait" THEN [u EXCEPT !.wpc[w] = "proc.token_returned", !.tokens = @ + 1]
+  ELSE [u EXCEPT !.wpc[w] = "proc.sent"]
+MaySend(st, w) == st.wpc[w] \in {"sendwait", "psendwait"} /\ (FifoSend => Head(st.sendq) = w)
+
 InternalSteps(st) ==
   IF st.panicked THEN {} ELSE
   \* worker start: <-p.work
@@ -118,12 +138,12 @@ InternalSteps(st) ==
   \cup
   \* worker: p.out <- Result (buffered)
   {IF st.closes > 0 THEN [st EXCEPT !.panicked = TRUE]
-   ELSE [st EXCEPT !.wpc[w] = "proc.sent", !.out = Append(@, st.cur[w])] :
-     w \in {x \in Workers : st.wpc[x] = "sendwait" /\ (Len(st.out) < st.b \/ st.closes > 0)}}
+   ELSE AfterSend([st EXCEPT !.out = Append(@, st.cur[w])], w) :
+     w \in {x \in Workers : MaySend(st, x) /\ (Len(st.out) < st.b \/ st.closes > 0)}}
   \cup
   \* worker -> reader rendezvous on an unbuffered (or momentarily empty) channel
-  {[st EXCEPT !.wpc[w] = "proc.sent", !.got = Append(@, st.cur[w]), !.rpc = "r.read"] :
-     w \in {x \in Workers : st.wpc[x] = "sendwait" /\ st.closes = 0 /\ st.out = <<>>
+  {AfterSend([st EXCEPT !.got = Append(@, st.cur[w]), !.rpc = "r.read"], w) :
+     w \in {x \in Workers : MaySend(st, x) /\ st.closes = 0 /\ st.out = <<>>
                               /\ st.rpc = "r.recvwait" /\ Len(st.out) >= st.b}}
   \cup
   \* reader: <-p.out
@@ -151,7 +171,7 @@ VARIABLES st, last
 vars == <<st, last>>
 
 Init ==
-  /\ \E t \in Threads, n \in NOps, b \in Buffers, q \in QCaps : st = InitState(t, n, b, q)
+  /\ \E t \in Threads, n \in NOps, b \in Buffers, q \in QCaps : \E bad \in PanicSets(t, n) : st = InitState(t, n, b, q, bad)
   /\ last = <<"init">>
 
 Rel(p) == CanRelease(st, p) /\ st' = Released(st, p) /\ last' = <<"release", p, GateOf(st, p)>>
